@@ -87,7 +87,20 @@ def run_job(job):
                 argv = ["-o", "prog", "-static", "--gc-sections"] + wl.extra[2:] + wl.inputs
                 if not sc["fork"]:
                     argv.append("--no-fork")
-                plan = Plan(sc["pseed"], sc["strategy"], faults=[sc["fault"]] if sc["fault"] else [])
+                faults = [sc["fault"]] if sc["fault"] else []
+                mid_file = os.path.join(wl.ctl, f"r{wl.n}.midtokens")
+                if sc["style"] == "fifo":
+                    # Tokens wild holds *during* the link, measured from outside: while wild is
+                    # parked at a phase boundary, drain the fifo, count, put everything back.
+                    site = ["after_open", "after_layout", "write_start"][sc["pseed"] % 3]
+                    probe = os.path.join(wl.ctl, f"r{wl.n}.probe.sh")
+                    with open(probe, "w") as fh:
+                        fh.write("#!/bin/sh\n"
+                                 f"n=$(dd if='{fifo_path}' bs=1 count=64 iflag=nonblock 2>/dev/null | wc -c)\n"
+                                 f"i=0; while [ $i -lt $n ]; do printf '+' > '{fifo_path}'; i=$((i+1)); done\n"
+                                 f"echo $n > '{mid_file}'\n")
+                    faults.append(f"cmd@site={site}@sh {probe}")
+                plan = Plan(sc["pseed"], sc["strategy"], faults=faults)
                 env_extra = {"MAKEFLAGS": makeflags, "CARGO_MAKEFLAGS": None}
                 syslog = os.path.join(wl.ctl, f"r{wl.n}.syslog")
                 if sc.get("sysfault"):
@@ -108,6 +121,7 @@ def run_job(job):
             res["runs"] += 1
             res["steps"] += r.steps
             res["switches"] += int(r.summary.get("switches", 0))
+            res.setdefault("trace", []).append((res["runs"], r.status, r.steps, r.trace_hash, left))
             if int(r.summary.get("switches", 0)) > 0:
                 res["distinct"].append(f"{index}:{r.trace_hash}:{sc['fault']}")
             desc = {"family": "js", "job": {"prop": prop, "seed": seed, "index": index, "tier": tier,
@@ -152,6 +166,31 @@ def run_job(job):
                     viol("threads-exceed-tokens", f"js/threads>{'tokens+1'}/{sc['style']}",
                          f"{threads} threads with {tokens} tokens acquired (style {sc['style']}, "
                          f"{k - taken} available)")
+                # What wild *thinks* it uses (above) is not what counts: the size of the pool it
+                # actually built is (simulated machine with WILD_SIM_DEFAULT_THREADS CPUs).
+                try:
+                    mid = int(open(mid_file).read().strip())
+                except (FileNotFoundError, ValueError):
+                    mid = None
+                if mid is not None:
+                    held = (k - taken) - mid
+                    c["mid_link_token_probes"] = c.get("mid_link_token_probes", 0) + 1
+                    ps = int(r.summary.get("pool_size", 0) or 0)
+                    if ps > held + 1:
+                        viol("pool-larger-than-tokens-held",
+                             f"js/pool>held+1/{sc['style']}",
+                             f"during the link wild held {held} tokens ({k - taken} free before, {mid} "
+                             f"in the fifo while wild was parked at a phase boundary) but runs a pool "
+                             f"of {ps} threads")
+                pool_size = int(r.summary.get("pool_size", 0) or 0)
+                c[f"pool_size_{pool_size}"] = c.get(f"pool_size_{pool_size}", 0) + 1
+                if pool_size > tokens + 1:
+                    viol("pool-larger-than-tokens",
+                         f"js/pool>{'tokens+1'}/{sc['style']}/tokens={min(tokens, 1)}",
+                         f"thread pool of {pool_size} threads built with {tokens} tokens acquired "
+                         f"(wild computed {threads} available threads; style {sc['style']}, "
+                         f"{k - taken} tokens were free, simulated machine has "
+                         f"{[1, 2, 3, 4][sc['pseed'] % 4]} CPUs)")
                 if tokens > k - taken:
                     viol("more-tokens-than-available", f"js/overdraw/{sc['style']}",
                          f"acquired {tokens} tokens but only {k - taken} were available")
